@@ -408,6 +408,8 @@ pub fn run(config: Config, receiver: Receiver<ActorMessage>) {
                 if !crate::verif::actor_turn(&actor) {
                     break;
                 }
+                #[cfg(mainline_verif)]
+                crate::verif::actor_prepare(&mut actor);
 
                 match receiver.try_recv() {
                     Ok(actor_message) => match actor_message {
@@ -510,6 +512,11 @@ pub enum ResponseSender {
 
 #[cfg(mainline_verif)]
 impl Actor {
+    /// Fast-forward the socket's transaction-id counter (a long-running node).
+    pub fn verif_set_next_tid(&mut self, tid: u32) {
+        self.socket.verif_set_next_tid(tid);
+    }
+
     /// Plain-data description of everything this actor holds.
     pub fn verif_snapshot(&self) -> crate::verif::ActorSnapshot {
         crate::verif::ActorSnapshot {
